@@ -225,14 +225,24 @@ Definition cds_lt_region (g : gene) (r : area) : bool := feat_lt (gloc g) (aloc 
 Definition areas_of (tbl : list area) (ids : list Z) : list area :=
   flat_map (fun i => match find_area tbl i with Some a => [a] | None => [] end) ids.
 
+(* _link_cds_to_parent: what is put in front of the slice of the region list -
+     if first > 0 and self._regions[0].crosses_origin(): candidates.insert(0, self._regions[0])
+   (repair of finding C06-K4 late_gene_origin_region_unlinked: a region crossing the origin always sorts first,
+   wherever its part before the origin lies, so the bisection can end far away from it) *)
+Definition link_first (regs : list area) (from : nat) : list area :=
+  match regs with
+  | r0 :: _ => if Nat.ltb 0 from && bridges (aloc r0) then [r0] else []
+  | [] => []
+  end.
+
 (* _link_cds_to_parent *)
 Definition link_cds (st : state) (g : gene) : res state :=
   let regs := areas_of (sareas st) (sregs st) in
   let left := bisect (fun r => region_lt_cds r g) regs 0 in
   let right := bisect (fun r => negb (cds_lt_region g r)) regs left in
-  (* self._regions[max(0, left - 1):right + 1]; natural-number subtraction stops at 0 *)
+  (* first = max(0, left - 1); candidates = self._regions[first:right + 1]; natural-number subtraction stops at 0 *)
   let from := (left - 1)%nat in
-  let window := firstn (S right - from)%nat (skipn from regs) in
+  let window := link_first regs from ++ firstn (S right - from)%nat (skipn from regs) in
   do tl <- fold_left (fun acc r =>
                        do tl <- acc;
                        let '(t, lk) := tl in
